@@ -688,7 +688,7 @@ fn do_sync(ctx: &Ctx, op: &Op) -> Out {
         Op::IdxDelete { key } => unit(cacache::index::delete(cache, ctx.key(*key))),
         Op::LinkTo(l) => do_link_sync(ctx, l),
         Op::Abandon { spec, at } => do_abandon_sync(ctx, spec, *at),
-        Op::DamageContent { .. } | Op::DamageBucket { .. } | Op::ForeignRecord { .. } => unreachable!(),
+        Op::DamageContent { .. } | Op::DamageBucket { .. } | Op::ForeignRecord { .. } | Op::Chdir { .. } | Op::PlantRecord { .. } => unreachable!(),
     }
 }
 
@@ -780,7 +780,7 @@ async fn do_async(ctx: &Ctx<'_>, op: &Op) -> Out {
         Op::IdxDelete { key } => unit(cacache::index::delete_async(cache, ctx.key(*key)).await),
         Op::LinkTo(l) => do_link_async(ctx, l).await,
         Op::Abandon { spec, at } => do_abandon_async(ctx, spec, *at).await,
-        Op::DamageContent { .. } | Op::DamageBucket { .. } | Op::ForeignRecord { .. } => unreachable!(),
+        Op::DamageContent { .. } | Op::DamageBucket { .. } | Op::ForeignRecord { .. } | Op::Chdir { .. } | Op::PlantRecord { .. } => unreachable!(),
     }
 }
 
@@ -907,6 +907,29 @@ pub fn do_harness_side(ctx: &Ctx, op: &Op) -> Out {
         Op::DamageBucket { key, dmg } => {
             let p = reffmt::bucket_path(&ctx.cache, ctx.key(*key));
             crate::damage::damage_bucket(&p, dmg);
+            Out::Done
+        }
+        Op::PlantRecord { key, integrity, time } => {
+            let p = reffmt::bucket_path(&ctx.cache, ctx.key(*key));
+            let rec = reffmt::Rec {
+                key: ctx.key(*key).to_string(),
+                integrity: integrity.clone(),
+                time: *time as u128,
+                size: 1,
+                metadata: reffmt::Json::Null,
+                raw_metadata: None,
+            };
+            let _ = std::fs::create_dir_all(p.parent().unwrap());
+            if let Ok(mut f) = std::fs::OpenOptions::new().create(true).append(true).open(&p) {
+                let _ = f.write_all(&reffmt::encode_record(&rec, reffmt::EmitStyle { ascii: false, reversed: false }));
+            }
+            Out::Done
+        }
+        Op::Chdir { dir } => {
+            // process-global: only single-threaded driver processes execute this
+            let d = ctx.scratch.join("cwd").join(format!("d{dir}"));
+            let _ = std::fs::create_dir_all(&d);
+            let _ = std::env::set_current_dir(&d);
             Out::Done
         }
         Op::ForeignRecord { bucket_of, key, addr } => {
